@@ -2085,6 +2085,14 @@ func (x *Exec) specBuiltin(st *State, env *Env, name string, args []Expr) (Value
 			}
 		}
 		return sum, true
+	case "folded":
+		// the value of the expression with recursively defined spec functions left folded (no
+		// defining equation is added for the applications inside): for clauses that only pass such
+		// values around
+		x.recDepth++
+		v := x.eval(st, env, args[0])
+		x.recDepth--
+		return v, true
 	case "merged":
 		// identity; forces single-valued (path-merged) evaluation of a call in a let
 		return x.eval(st, env, args[0]), true
